@@ -437,10 +437,10 @@ def build(P):
         yield ("repl-features", cases)
 
     c12_memo = {}
-    def strip_repl(out):
+    def strip_repl(out, stdin=None):
         """REPL stdout -> program OUTPUT text only: prompts and markers removed (echo lines stay)"""
         from prof_expr import segments
-        return b"".join(segments(out))
+        return b"".join(segments(out, stdin))
 
     def c12_oracle(c, r, m):
         role = c.meta.get("role")
@@ -450,7 +450,7 @@ def build(P):
         elif role in ("repl", "mixed"):
             base = c12_memo.get(("file", c.meta["pair"]))
             if base is not None and base[1] == 0:
-                got = strip_repl(r.out)
+                got = strip_repl(r.out, c.stdin)
                 if role == "mixed":
                     # failing entries print one line break each before their diagnostic
                     got_cmp = got.replace(b"\n", b""); exp_cmp = base[0].replace(b"\n", b"")
@@ -460,10 +460,10 @@ def build(P):
                 if got_cmp != exp_cmp:
                     msgs.append("REPL session output differs from file mode: %r vs %r" % (got[-200:], base[0][-200:]))
         elif role == "survive-base":
-            c12_memo[("base", c.meta["fail"])] = strip_repl(r.out)
+            c12_memo[("base", c.meta["fail"])] = strip_repl(r.out, c.stdin)
         elif role == "survive":
             base = c12_memo.get(("base", c.meta["fail"]))
-            got = strip_repl(r.out)
+            got = strip_repl(r.out, c.stdin)
             if base is not None:
                 # the failing entry adds exactly one line break (printed before its diagnostic); everything else must be identical
                 if got.replace(b"\n", b"") != base.replace(b"\n", b"") or got.count(b"\n") != base.count(b"\n") + 1:
